@@ -228,6 +228,44 @@ def mon_deleted_absent(steps, meta):
 wk.MONITORS["deleted_absent"] = mon_deleted_absent
 
 
+def gen_vanished_subdir_case(rng):
+    """a directory of a project holds versioned files AND sub-directories with versioned files; the sub-directories are
+    deleted, one file is saved again: the snapshot holds every file that still exists - wherever the walk meets it"""
+    s = wc.Script()
+    W = wc.WATCH
+    wc.setup_world(s, wc.base_cfg(deb=0))
+    s.start()
+    s.exec(3, wc.X + "/vim")
+    if rng.random() < 0.5:
+        s.add("ftsrev 1")
+    root = rng.choice([W + "/proj", W + "/pp/p1"])
+    keep = ["docs/a%02d.txt" % i for i in range(4)] + ["docs/z%02d.txt" % i for i in range(4)] + ["top.c"]
+    gone = ["docs/mid1/x.txt", "docs/mid2/y.txt", "docs/00first/w.txt", "docs/zzlast/v.txt"]
+    for m in keep + gone:
+        s.put(root + "/" + m, "one " + m)
+        s.write(3, root + "/" + m)
+    s.tick(1)
+    s.dump()
+    s.timeout()
+    s.dump()
+    for m in rng.sample(gone, rng.randint(1, 4)):
+        s.rm(root + "/" + m)
+        s.add("rmdir %s" % wc.hexs(root + "/" + m.rsplit("/", 1)[0]))
+    s.put(root + "/top.c", "two")
+    s.write(3, root + "/top.c")
+    s.tick(1)
+    s.dump()
+    s.timeout()
+    s.dump()
+    s.put(root + "/docs/a00.txt", "three")
+    s.write(3, root + "/docs/a00.txt")
+    s.tick(1)
+    s.dump()
+    s.timeout()
+    s.dump()
+    return s.text(), {}
+
+
 def gen_relative_case(rng):
     """project roots and parents configured RELATIVELY to the common parent of the watch roots ('proj', 'pp'), and saves
     of files that are no members: their paths merely begin with the same characters (proj-notes.txt, proj2/b.txt,
@@ -333,6 +371,9 @@ def main(rep):
     for i in range(max(8, n // 25)):
         t, m = gen_relative_case(rng)
         cases.append(("r%d" % i, t, m))
+    for i in range(max(8, n // 25)):
+        t, m = gen_vanished_subdir_case(rng)
+        cases.append(("vs%d" % i, t, m))
     wk.standard_main(rep, cases=cases, monitors=["twin"] + MON + ["nested", "deleted_absent", "snapshot_needs_write"], known=known,
                      rule=("a configured project root and two children of a project parent, files at depth 1-4, a loose file in the parent and a non-project "
                            "file, writes, deletions, passes, restarts, both traversal orders of the tree walk; the monitor checks every new snapshot directory: "
